@@ -152,7 +152,13 @@ func (p *Parser) parseHeader(data []byte) (header *parser.PacketHeader, buf []by
 
 		for ; end < len(data); end++ {
 			c := data[end]
-			if c == '"' && data[end-1] != '\\' {
+			if c == '\\' {
+				// A backslash escapes the next byte, which therefore cannot close the string.
+				// (Looking only at the previous byte takes the quote after an escaped backslash for an escaped quote.)
+				end++
+				continue
+			}
+			if c == '"' {
 				b := data[start : end+1]
 
 				tmp = make([]byte, len(b)+2)
